@@ -1,5 +1,6 @@
 import MQ.Inv.EpochMain
 import MQ.Inv.NRMain
+import MQ.Inv.Owe
 /-!
 # No position block is released twice
 
@@ -73,100 +74,6 @@ theorem owesP_step (σ : St) (x inp : Nat) (h1 : ∀ c ng, (σ.th x).pc ≠ .rr2
   case f9 k c => cases k <;> po_case hpc
   case f10 k => cases k <;> po_case hpc
   all_goals po_case hpc
-
-structure OInv (K : Obj → Prop) (O : Th → Option Obj) (σ : St) : Prop where
-  once : ∀ ob, K ob → σ.mgr.pipe.count ob ≤ 1
-  ow : ∀ t ob, O (σ.th t) = some ob → K ob ∧ σ.mgr.pipe.count ob = 0
-  oinj : ∀ t u ob, t ≠ u → O (σ.th t) = some ob → O (σ.th u) = some ob → False
-
-variable {K : Obj → Prop} {O : Th → Option Obj}
-
-/-- the pipeline is permuted, `x` owes what it owed -/
-theorem oinv_same {σ σ' : St} (x : Nat) (G : OInv K O σ)
-    (hth : ∀ u, u ≠ x → σ'.th u = σ.th u)
-    (hp : σ'.mgr.pipe.Perm σ.mgr.pipe) (ho : O (σ'.th x) = O (σ.th x)) : OInv K O σ' := by
-  have tho : ∀ u, O (σ'.th u) = O (σ.th u) := by
-    intro u; by_cases e : u = x
-    · subst e; exact ho
-    · rw [hth u e]
-  refine ⟨?_, ?_, ?_⟩
-  · intro ob hk; rw [hp.count_eq]; exact G.once ob hk
-  · intro t ob h; rw [hp.count_eq]; rw [tho t] at h; exact G.ow t ob h
-  · intro t u ob htu h1 h2; rw [tho t] at h1; rw [tho u] at h2; exact G.oinj t u ob htu h1 h2
-
-/-- `x` starts to owe a fresh object -/
-theorem oinv_retire {σ σ' : St} (x : Nat) (ob : Obj) (G : OInv K O σ)
-    (hth : ∀ u, u ≠ x → σ'.th u = σ.th u)
-    (hp : σ'.mgr.pipe.Perm σ.mgr.pipe)
-    (hk : K ob) (hfresh : ob ∉ σ.mgr.pipe) (hnone : ∀ u, u ≠ x → O (σ.th u) ≠ some ob)
-    (hnew : O (σ'.th x) = some ob) : OInv K O σ' := by
-  refine ⟨?_, ?_, ?_⟩
-  · intro ob' hk'; rw [hp.count_eq]; exact G.once ob' hk'
-  · intro t ob' h; rw [hp.count_eq]
-    by_cases e : t = x
-    · subst e; rw [hnew] at h; injection h with h; subst h
-      exact ⟨hk, List.count_eq_zero.mpr hfresh⟩
-    · rw [hth t e] at h; exact G.ow t ob' h
-  · intro t u ob' htu h1 h2
-    by_cases et : t = x
-    · subst et
-      have eu : u ≠ t := fun e => htu e.symm
-      rw [hnew] at h1; injection h1 with h1; subst h1
-      rw [hth u eu] at h2; exact hnone u eu h2
-    · by_cases eu : u = x
-      · subst eu
-        rw [hnew] at h2; injection h2 with h2; subst h2
-        rw [hth t et] at h1; exact hnone t et h1
-      · rw [hth t et] at h1; rw [hth u eu] at h2; exact G.oinj t u ob' htu h1 h2
-
-/-- `x` passes the object it owes to `free` -/
-theorem oinv_pass {σ σ' : St} (x : Nat) (ob : Obj) (G : OInv K O σ)
-    (hth : ∀ u, u ≠ x → σ'.th u = σ.th u)
-    (hp : σ'.mgr.pipe.Perm (σ.mgr.pipe ++ [ob]))
-    (hold : O (σ.th x) = some ob) (hnew : O (σ'.th x) = none) : OInv K O σ' := by
-  refine ⟨?_, ?_, ?_⟩
-  · intro ob' hk'; rw [hp.count_eq, List.count_append]
-    by_cases e : ob = ob'
-    · subst e; rw [(G.ow x ob hold).2]; simp
-    · have : [ob].count ob' = 0 := List.count_eq_zero.mpr (by simp; exact fun h => e h.symm)
-      rw [this]; exact G.once ob' hk'
-  · intro t ob' h; rw [hp.count_eq, List.count_append]
-    have et : t ≠ x := by intro e; subst e; rw [hnew] at h; cases h
-    rw [hth t et] at h
-    obtain ⟨a, b⟩ := G.ow t ob' h
-    refine ⟨a, ?_⟩
-    have : [ob].count ob' = 0 := List.count_eq_zero.mpr (by
-      simp; intro e; subst e; exact G.oinj t x ob' et h hold)
-    rw [b, this]
-  · intro t u ob' htu h1 h2
-    have et : t ≠ x := by intro e; subst e; rw [hnew] at h1; cases h1
-    have eu : u ≠ x := by intro e; subst e; rw [hnew] at h2; cases h2
-    rw [hth t et] at h1; rw [hth u eu] at h2; exact G.oinj t u ob' htu h1 h2
-
-/-- `x` passes an object of another kind (or one this instance does not track) to `free` -/
-theorem oinv_pass_other {σ σ' : St} (x : Nat) (ob : Obj) (G : OInv K O σ)
-    (hth : ∀ u, u ≠ x → σ'.th u = σ.th u)
-    (hp : σ'.mgr.pipe.Perm (σ.mgr.pipe ++ [ob])) (hk : ¬ K ob)
-    (ho : O (σ'.th x) = O (σ.th x)) : OInv K O σ' := by
-  have tho : ∀ u, O (σ'.th u) = O (σ.th u) := by
-    intro u; by_cases e : u = x
-    · subst e; exact ho
-    · rw [hth u e]
-  have cnt : ∀ ob', K ob' → σ'.mgr.pipe.count ob' = σ.mgr.pipe.count ob' := by
-    intro ob' hk'
-    rw [hp.count_eq, List.count_append]
-    have : [ob].count ob' = 0 := List.count_eq_zero.mpr (by simp; intro e; subst e; exact hk hk')
-    rw [this]; rfl
-  refine ⟨?_, ?_, ?_⟩
-  · intro ob' hk'; rw [cnt ob' hk']; exact G.once ob' hk'
-  · intro t ob' h; rw [tho t] at h; obtain ⟨a, b⟩ := G.ow t ob' h; exact ⟨a, by rw [cnt ob' a]; exact b⟩
-  · intro t u ob' htu h1 h2; rw [tho t] at h1; rw [tho u] at h2; exact G.oinj t u ob' htu h1 h2
-
-theorem freed_once {σ : St} (G : OInv K O σ) (ob : Obj) (hk : K ob) : σ.freed.count ob ≤ 1 := by
-  have := G.once ob hk
-  simp only [Mgr.pipe, St.mgr, List.count_append] at this
-  omega
-
 
 theorem owesP_remFacts {σ : St} {tk s : Nat} {y : Th} (h : y.owesP = some (.posO s)) (L : ELoc σ tk y) : remFacts σ s := by
   obtain ⟨pc, g', v', outer, ff, pn, ng, ns, s', single, aux⟩ := y
